@@ -41,6 +41,7 @@ impl Monitor for C14 {
     fn mandatory_buckets(&self, _tier: Tier) -> Vec<String> {
         [
             "request/accepted",
+            "modifier_roots_changed_between_requests",
             "request/leaf_outside_subtree",
             "request/leaf_equals_root",
             "request/duplicate_leaves",
@@ -211,6 +212,28 @@ impl Monitor for C14 {
                 Json::Arr(requests.iter().map(|(r, l)| Json::obj().set("root", Json::u(u64::from(*r))).set("leaves", Json::arr_u32(l))).collect()),
             );
 
+        let mut src = src;
+        let mut m = m;
+        for phase in 0..2 {
+            if phase == 1 {
+                // second phase (a third of the cases): the user changes the modifier roots of the SAME source
+                // object and asks again; which records are kept follows the roots as they are now
+                if !rng.chance(1, 3) {
+                    break;
+                }
+                let new_roots: BTreeSet<u32> = match rng.below(3) {
+                    0 => BTreeSet::new(),
+                    1 => {
+                        let mut r = m.modifier_roots.clone();
+                        r.insert(*rng.pick(&ids));
+                        r
+                    }
+                    _ => (0..rng.urange(1, 3)).map(|_| *rng.pick(&ids)).collect(),
+                };
+                *src.modifier_mut() = hpo::term::HpoGroup::from(new_roots.iter().copied().collect::<Vec<u32>>());
+                m.modifier_roots = new_roots;
+                out.bucket("modifier_roots_changed_between_requests");
+            }
         for (root, leaves) in &requests {
             let root_class = if *root == 1 {
                 "HP1"
@@ -398,6 +421,7 @@ impl Monitor for C14 {
                 }
                 out.violate("C14", &format!("result_vs_own_facts/{}", d.site), d.detail);
             }
+        }
         }
         out
     }
